@@ -208,7 +208,9 @@ fn run_prog(t: usize, db: Database, mut regions: Vec<Option<Region>>, mut vec: O
                     };
                     w_each!(w, v => {
                         for k in 0..n {
-                            v.push((pushed + k) as u64);
+                            // incompressible values: a compressed page then takes ~16 KiB, so that page-sized batches
+                            // outgrow the data region's reservation (and, with a filled file, make the file grow)
+                            v.push(crate::common::splitmix64((pushed + k) as u64));
                         }
                         if let Err(e) = v.write() {
                             sh.errors.lock().unwrap().push(format!("program {t}: vector write failed: {e}"));
@@ -297,7 +299,9 @@ fn run_case(case: &Case, obs: &mut Obs) -> Result<(), String> {
             w_each!(w, v => {
                 let n0 = if case.big_index && t == 0 { 255 * PP + PP - 3 } else { PP - 3 };
                 for k in 0..n0 {
-                    v.push(k as u64);
+                    // incompressible except in the big-index scenario (255 pages): the first page-sized batch then
+                    // outgrows the data region's 32 KiB reservation
+                    v.push(if case.big_index { k as u64 } else { crate::common::splitmix64(k as u64 ^ 0xabcd) });
                 }
                 v.write().map_err(|e| format!("prologue vec write: {e}"))?;
             });
